@@ -258,6 +258,23 @@ def run(ctx):
     bta = prog.body(SUBM7 + 'build_tasks_array')
     ctx.ob('R13.7', 'build_tasks_array|pairs ids with entries', bool(bta.call_blocks(lambda c: c.endswith('Iterator::zip'))), 'build_tasks_array zips ids with entries (which is why the lengths must agree)', bta.loc())
 
+    # ---- R13.8 the job state follows the documented precedence
+    ctx.rule('R13.8', 'job_status: the documented precedence Running > Waiting > Failed > Aborted > Canceled > Finished/Opened - the counter tests are evaluated in that order (failed before aborted before canceled), so a terminated job with failed and canceled tasks is FAILED')
+    js = [p_ for p_ in prog.bodies if p_.endswith('client::status::job_status')]
+    ctx.require(len(js) == 1, 'R13.8: job_status not found')
+    jb = prog.body(js[0])
+    tests = {}
+    for bi, s_, op, a, c in binops(jb):
+        if op in ('Gt', 'Ne', 'Lt'):
+            fs = operand_fields(jb, a) | operand_fields(jb, c)
+            for f in ('n_failed_tasks', 'n_aborted_tasks', 'n_canceled_tasks'):
+                if f in fs:
+                    tests.setdefault(f, []).append(bi)
+    ctx.require(all(f in tests for f in ('n_failed_tasks', 'n_aborted_tasks', 'n_canceled_tasks')), f'R13.8: counter tests in job_status ({sorted(tests)})')
+    fo, ab_, ca = tests['n_failed_tasks'][0], tests['n_aborted_tasks'][0], tests['n_canceled_tasks'][0]
+    ctx.ob('R13.8', 'job_status|failed before aborted before canceled', jb.dominates(fo, ab_) and jb.dominates(ab_, ca) and fo != ab_ != ca,
+           'the n_failed_tasks test dominates the n_aborted_tasks test, which dominates the n_canceled_tasks test', jb.loc(ca))
+
 
 def _only_without_entries(b, x, cmps):
     """paths to x that avoid the comparison exist only where the submit carries no entries / no explicit ids (the Option /
